@@ -375,6 +375,22 @@ func (m *Machine) callVsym(caller *frame, fn *ssa.Function, args []Value) (Value
 	case "vsym_ExploreSchedules":
 		m.explore = true
 		return nil, true
+	case "vsym_DaemonsFirst":
+		m.daemonsFirst = true
+		return nil, true
+	case "vsym_Await":
+		// block the calling thread until the (side-effect free, non-blocking) predicate holds
+		pred := args[0]
+		self := fr
+		m.blockUntil(func() bool {
+			r := m.call(self, self.curPos, pred, nil)
+			t, ok := r.(*term.Term)
+			if !ok || !t.IsConst() {
+				m.unsupported("vsym_Await: predicate must evaluate to a constant")
+			}
+			return t.C == 1
+		})
+		return nil, true
 	case "vsym_Settle":
 		// wait until every other logical thread is blocked or finished (quiescence)
 		self := m.cur
